@@ -119,6 +119,16 @@ STYLES = {
        "and app/ante are allowed again in this round, but NOT the files listed above. Do NOT touch x/recovery, x/ethereum, "
        "GetSigners / GetSignBytes / ValidateBasic of any message or proposal content, and add no in-memory caches or Go maps. "
        "The effect should ideally appear only some operations or blocks after the faulty step."),
+ '13': ("This round is open-ended: choose whatever you judge MOST LIKELY TO SLIP THROUGH a verification that drives the real "
+       "message handlers, proposal life cycles, Begin / EndBlockers, genesis export / import and restarts with generated "
+       "histories and compares every step with a reference model. Good candidates: a fault that needs THREE or more distinct "
+       "steps by two or more parties in a particular order; a fault that only shows for a value that is valid but that nobody "
+       "would generate (a name, denomination, address or number with a special relation to another one in the state); a fault in "
+       "code that runs only on a path whose precondition is itself rare (a refund after a failed refund, the second expiry of the "
+       "same object, an update of an object that is being removed); a fault whose effect is a missing or extra EVENT-free state "
+       "change that no query exposes until much later. Prefer functions the earlier engineers did NOT touch. Do NOT touch "
+       "x/recovery, x/ethereum, GetSigners / GetSignBytes / ValidateBasic of any message or proposal content, and add no "
+       "in-memory caches or Go maps. The effect should ideally appear only some operations or blocks after the faulty step."),
  '5': ("Prefer one of these styles, whichever fits: (a) arithmetic: a changed rounding direction, order of "
        "multiplication and division, integer width or sign conversion that only matters for particular magnitudes; "
        "(b) iteration: an iterator bound, prefix or pagination change that only matters when a second object with a "
